@@ -668,7 +668,8 @@ impl<'c> VisitMut for Rw<'c> {
             } }
         }
         // G1 / A1b on calls
-        if let Some(n) = call_last_ident(e) {
+        let is_pure_path = if let Expr::Call(c) = e { self.cx.unit.pure_paths.contains(&nospace(&c.func.to_token_stream().to_string())) } else { false };
+        if let (Some(n), false) = (call_last_ident(e), is_pure_path) {
             if let Some(base) = n.strip_suffix("__hx_eager") {
                 let base = base.to_string(); rename_call(e, &base);
                 if self.cx.unit.traced.contains(&base) { push_ghost(e); self.cx.fire("G1"); }
@@ -773,7 +774,12 @@ impl<'a> Visit<'a> for Free {
         if let Expr::Path(p) = &*f.base { if p.path.is_ident("self") { if let syn::Member::Named(n) = &f.member { self.use_(format!("self.{}", n)); return; } } }
         syn::visit::visit_expr_field(self, f);
     }
-    fn visit_macro(&mut self, m: &'a syn::Macro) { if !is_dropped_macro(m) { self.tokens(m.tokens.clone()); } }
+    fn visit_macro(&mut self, m: &'a syn::Macro) {
+        if is_dropped_macro(m) { return; }
+        // select! arms bind their patterns for their bodies
+        if is_select(m) { if let Ok(arms) = syn::parse2::<Arms>(m.tokens.clone()) { for a in &arms.0 { if let Some(f) = &a.fut { self.visit_expr(f); } let b = match &a.pat { Some(p) => binders_of(p), None => BTreeSet::new() }; self.bound.push(b); self.visit_expr(&a.body); self.bound.pop(); } return; } }
+        self.tokens(m.tokens.clone());
+    }
     fn visit_expr_struct(&mut self, s: &'a syn::ExprStruct) {
         for f in &s.fields { self.visit_expr(&f.expr); }
         if let Some(r) = &s.rest { self.visit_expr(r); }
